@@ -141,6 +141,9 @@ const TEMPLATES: &[(&str, &str, &str, &str)] = &[
     ("declaration-bound-lo", "min x", "x >= 0", "    w as Real({H}, 40)\n"),
     ("declaration-bound-hi", "min x", "x >= 0", "    w as NonNegativeReal(0, {H})\n"),
     ("declaration-int-bound", "min x", "x >= 0", "    w as IntegerRange({H}, 30)\n"),
+    ("declaration-one-bound-real", "min x", "x >= 0", "    w as Real({H})\n"),
+    ("declaration-one-bound-nonneg", "min x", "x >= 0", "    w as NonNegativeReal({H})\n"),
+    ("declaration-int-bound-hi", "min x", "x >= 0", "    w as IntegerRange(0, {H})\n"),
     ("constant-value", "min x", "x >= 0", "LET kk = {H}\n"),
     ("constant-in-expression", "min x", "x >= kk", "LET kk = {H} + 1\n"),
     ("constant-len", "min x", "x >= kk", "LET kk = len({H})\n"),
@@ -342,7 +345,7 @@ fn position_class(template: &str) -> &str {
         "array-index" | "matrix-index-1" | "matrix-index-2" | "scoped-array-index" => "array-index",
         "sum-range-to" | "sum-range-from" | "sum-range-inclusive" | "range" | "range-fn-arg" | "range-fn-to" | "range-fn-flag" => "range-end",
         "compound-index" | "compound-index-plain" | "scoped-index" | "constraint-name-index" => "compound-index",
-        "declaration-bound-lo" | "declaration-bound-hi" | "declaration-int-bound" | "declaration-bounds" => "declaration-bound",
+        "declaration-bound-lo" | "declaration-bound-hi" | "declaration-int-bound" | "declaration-bounds" | "declaration-one-bound-real" | "declaration-one-bound-nonneg" | "declaration-int-bound-hi" => "declaration-bound",
         "constant-value" | "constant-in-expression" | "constant-len" => "constant-value",
         other => other,
     }
